@@ -50,12 +50,24 @@ def _cases(R, G, t, n):
 
 def split_stream(sr, drv, G, W, R, n):
     """`_GlobSplit(p, flags).split()` vs the model's `globSplit` (compiled parts as text)"""
+    shape = {'checked': 0, 'bad': []}
     def real_parts(p, fl, isb):
         try:
             parts = G._GlobSplit(p.encode('latin-1') if isb else p, fl).split()
         except ValueError:
             return 'err ValueError'
         out = []
+        # the shape facts `C05_partial` assumes of every `_GlobSplit` output (WFParts, TopOK.drive,
+        # TopOK.litText): only the last part may lack dir_only; a non-magic part is a plain string;
+        # the drive part is exactly a written `/` and is a directory part
+        shape['checked'] += 1
+        okshape = all(q.dir_only for q in parts[:-1]) and \
+            all(isinstance(q.pattern, (str, bytes)) for q in parts if not q.is_magic) and \
+            all((q.pattern in ('/', b'/')) and q.dir_only for q in parts if q.is_drive) and \
+            all(q.pattern not in ('/', b'/') for q in parts if not q.is_drive and not q.is_magic) and \
+            all(not q.is_drive for q in parts[1:])
+        if not okshape:
+            shape['bad'].append(p)
         for q in parts:
             pat = q.pattern
             t = ('l' + common.enc(pat)) if isinstance(pat, (str, bytes)) else ('r' + common.enc(pat.pattern))
@@ -88,6 +100,10 @@ def split_stream(sr, drv, G, W, R, n):
         elif len(sr.samples) < 2 and len(p) > 4 and '/' in p:
             sr.samples.append({'pattern': p, 'flags': hex(fl), 'parts': len(r.split(' ')) - 1})
     sr.distinct += len(set(cases))
+    sr.histogram['shape facts (WFParts, drive, literal) hold'] = shape['checked'] - len(shape['bad'])
+    for p in shape['bad'][:3]:
+        sr.disagree({'stream': 'K5-split-shape', 'pattern': p, 'code': 'a _GlobSplit output violates WFParts / drive / literal shape',
+                     'model': 'assumed by C05_partial'})
 
 
 def attribute(G, t, c, res: set, den: set, den_match: set):
@@ -204,7 +220,12 @@ def run(ck: Check) -> int:
             ids = set()
             ok = True
             for x in glob_only:
-                if not dotglob and hidden(x):
+                fx = os.path.join(t.root, x)
+                if not os.path.lexists(fx) or not os.path.isdir(fx) and ('**' in p or p.endswith('/')) and \
+                        any(os.path.lexists(os.path.join(t.root, *x.split('/')[:j])) and
+                            not os.path.isdir(os.path.join(t.root, *x.split('/')[:j])) for j in range(1, len(x.split('/')) + 1)):
+                    ids.add('KF-D17')    # `f/**` -> `f/`, `f/..` for a regular file f
+                elif not dotglob and hidden(x):
                     ids.add('KF-B1')     # `*.*` / `*h` takes a hidden name in wcmatch (the dot is written), not in Bash
                 else:
                     ok = False
